@@ -19,6 +19,7 @@ fn has_mate_in_one(g: &Gen, b: &Board) -> bool { g.mg.generate_moves(b).iter().a
 pub fn run(rng: &mut Rng, n: usize, out: &mut Out, which: &str) {
     let mut st = ImplState::new();
     let g = Gen::new();
+    if which == "c08" || which == "c03" { out.run(&mut st, "impl.viafen on"); }
     let mut case = 0;
     let mut guard = 0u64;
     while case < n {
@@ -182,6 +183,8 @@ pub fn run(rng: &mut Rng, n: usize, out: &mut Out, which: &str) {
                     }
                     // a game from there; for C09 bias towards shuffling back and forth so that positions repeat
                     let long = rng.chance(1, 8);
+                    // ... and, rarely, a game of more than a thousand plies in one command (fixed-size buffers, counters)
+                    let very_long = which == "c04" && rng.chance(1, 60);
                     let plies = if which == "c09" { 4 + rng.below(14) } else { rng.below(if long { 200 } else { 30 }) };
                     let mut b = start;
                     let mut played: Vec<Move> = Vec::new();
@@ -208,6 +211,19 @@ pub fn run(rng: &mut Rng, n: usize, out: &mut Out, which: &str) {
                     // C09: sometimes a LONG game in which a position occurs twice early and is approached a third time
                     // more than a hundred plies later (nothing in the rules limits how far back an occurrence may lie)
                     let mut plies = if related == 5 { 0 } else { plies };
+                    if very_long && played.is_empty() {
+                        let mut ms: Vec<Move> = Vec::new();
+                        let mut bb = b;
+                        while ms.len() < 1030 + rng.below(60) as usize {
+                            let all = g.mg.generate_moves(&bb);
+                            if all.is_empty() { break; }
+                            // shuffle: undo my previous move when possible, else a quiet non-pawn move, else anything
+                            let m = if ms.len() >= 2 { let prev = ms[ms.len() - 2]; all.iter().find(|x| x.from == prev.to && x.to == prev.from && x.piece_type == prev.piece_type && x.move_type == MoveType::Quiet).cloned() } else { None };
+                            let m = m.unwrap_or_else(|| { let q: Vec<&Move> = all.iter().filter(|x| x.move_type == MoveType::Quiet && x.piece_type != crate::pieces::Piece::Pawn).collect(); if !q.is_empty() { **rng.pick(&q) } else { *rng.pick(&all) } });
+                            bb.make_move(&m); ms.push(m);
+                        }
+                        if ms.len() > 1024 { b = bb; played = ms; plies = 2 + rng.below(4); out.count("very_long_games_over_1024_plies"); }
+                    }
                     if which == "c09" && rng.chance(1, 4) {
                         if let Some(ms) = long_repetition_game(&g, rng, &start) {
                             for m in &ms { b.make_move(m); }
@@ -220,7 +236,14 @@ pub fn run(rng: &mut Rng, n: usize, out: &mut Out, which: &str) {
                     for _ in 0..plies {
                         let ms = g.mg.generate_moves(&b);
                         if ms.is_empty() { break; }
-                        let m = if which == "c09" && played.len() >= 2 && rng.chance(3, 4) {
+                        let m = if which == "c09" && played.len() < 2 && rng.chance(1, 3) && ms.iter().any(|x| x.piece_type == crate::pieces::Piece::Pawn && (x.to as i32 - x.from as i32).abs() == 16) {
+                            // a double pawn push early on: the position right after it carries an en-passant square and must not be
+                            // counted as the same position as the identical placement without one
+                            let dp: Vec<&Move> = ms.iter().filter(|x| x.piece_type == crate::pieces::Piece::Pawn && (x.to as i32 - x.from as i32).abs() == 16).collect();
+                            let edge: Vec<&&Move> = dp.iter().filter(|x| x.from % 8 == 0 || x.from % 8 == 7).collect();
+                            out.count("games_opening_with_a_double_pawn_push");
+                            if !edge.is_empty() && rng.chance(1, 2) { ***rng.pick(&edge) } else { **rng.pick(&dp) }
+                        } else if which == "c09" && played.len() >= 2 && rng.chance(3, 4) {
                             // undo my previous move if possible (piece returns to where it came from)
                             let prev = played[played.len() - 2];
                             match ms.iter().find(|x| x.from == prev.to && x.to == prev.from && x.piece_type == prev.piece_type && x.move_type == MoveType::Quiet) { Some(x) => *x, None => *rng.pick(&ms) }
@@ -228,8 +251,14 @@ pub fn run(rng: &mut Rng, n: usize, out: &mut Out, which: &str) {
                             let quiet: Vec<&Move> = ms.iter().filter(|x| x.move_type == MoveType::Quiet && x.piece_type != crate::pieces::Piece::Pawn).collect();
                             if !quiet.is_empty() && rng.chance(4, 5) { **rng.pick(&quiet) } else { *rng.pick(&ms) }
                         } else {
+                            // moves whose text looks like a castling move (or "king takes own rook") but is not one, promotions,
+                            // captures, castles
+                            let lookalike: Vec<&Move> = ms.iter().filter(|x| (x.from == 4 || x.from == 60) && [0u8, 2, 6, 7, 56, 58, 62, 63].contains(&x.to) && x.move_type != MoveType::Castle).collect();
+                            let back_to_e: Vec<&Move> = ms.iter().filter(|x| (x.to == 4 || x.to == 60) && x.piece_type != crate::pieces::Piece::King).collect();
                             let special: Vec<&Move> = ms.iter().filter(|x| x.move_type != MoveType::Quiet).collect();
-                            if !special.is_empty() && rng.chance(2, 5) { **rng.pick(&special) } else { *rng.pick(&ms) }
+                            if !lookalike.is_empty() && rng.chance(1, 2) { out.count("cmd_castling_lookalike_moves"); **rng.pick(&lookalike) }
+                            else if !back_to_e.is_empty() && rng.chance(1, 4) { **rng.pick(&back_to_e) }
+                            else if !special.is_empty() && rng.chance(2, 5) { **rng.pick(&special) } else { *rng.pick(&ms) }
                         };
                         played.push(m);
                         b.make_move(&m);
@@ -267,8 +296,8 @@ pub fn run(rng: &mut Rng, n: usize, out: &mut Out, which: &str) {
                             out.count("depth1_searches_with_history_judged");
                             if any_third { out.count("depth1_searches_with_a_third_occurrence_successor"); }
                             // deeper searches on the same engine: model tie (node counts) with the history in place
-                            for d in 2..=3u8 {
-                                if crate::csearch::nodes_capped(&b, d, 20000) < 20000 { out.run(&mut st, &format!("eng.go {}", d)); out.count("deeper_searches_with_history_tied"); }
+                            for d in 2..=5u8 {
+                                if crate::csearch::nodes_capped(&b, d, if d <= 3 { 20000 } else { 12000 }) < (if d <= 3 { 20000 } else { 12000 }) { out.run(&mut st, &format!("eng.go {}", d)); out.count("deeper_searches_with_history_tied"); if d >= 4 { out.count("depth_4_5_searches_with_history_tied"); } }
                             }
                         } else { out.count("history_search_skipped_large_quiescence"); }
                     }
